@@ -370,14 +370,18 @@ Definition dec_hstep (s : sx) : option hstep :=
   | _ => None
   end.
 
-Record hcase := { hc_filter : N; hc_A : list entry; hc_S1 : list entry; hc_S2 : list entry; hc_steps : list hstep }.
+Record hcase := { hc_filter : N; hc_differ : differ; hc_mode : rmode; hc_A : list entry; hc_S1 : list entry; hc_S2 : list entry; hc_steps : list hstep }.
 Definition dec_hcase (input impl : sx) : option hcase :=
   match input, impl with
   | SL (a :: s1 :: s2 :: rest), SL steps =>
-    fc <- match rest with [] => Some 0 | [SN c] => Some c | _ => None end ;;
+    (* optional: filter code, differ (0 DiffMetadata, 1 DiffNone), merge *)
+    opts <- match rest with
+            | [] => Some (0, 0, 0) | [SN c] => Some (c, 0, 0) | [SN c; SN df] => Some (c, df, 0)
+            | [SN c; SN df; SN mg] => Some (c, df, mg) | _ => None end ;;
+    let '(fc, df, mg) := opts in
     A <- sx_list dec_entry a ;; S1 <- sx_list dec_entry s1 ;; S2 <- sx_list dec_entry s2 ;;
     st <- omap dec_hstep steps ;;
-    Some {| hc_filter := fc; hc_A := A; hc_S1 := S1; hc_S2 := S2; hc_steps := st |}
+    Some {| hc_filter := fc; hc_differ := differ_of df; hc_mode := rmode_of mg; hc_A := A; hc_S1 := S1; hc_S2 := S2; hc_steps := st |}
   | _, _ => None
   end.
 
@@ -386,8 +390,8 @@ Definition dmap_listing (D : dmap) : list entry :=
   map (fun kv => (set_path (de_stat (snd kv)) (fst kv), de_bytes (snd kv))) (sort_by fst D).
 
 (* one step of the model chain (through the receiver's filter): result + the destination listed again *)
-Definition h_step (code : N) (A S : list entry) : dstate * list entry :=
-  let r := receive_abs_f (wf_of code) Hid hdr Fresh DMetadata A S in (r, dmap_listing (ds_map r)).
+Definition h_step (c : hcase) (A S : list entry) : dstate * list entry :=
+  let r := receive_abs_f (wf_of (hc_filter c)) Hid hdr (hc_mode c) (hc_differ c) A S in (r, dmap_listing (ds_map r)).
 
 Definition kp_path (x : N * bytes) : bytes := snd x.
 Definition enc_kp (x : N * bytes) : sx := SL [SN (fst x); SB (snd x)].
@@ -396,15 +400,15 @@ Definition step_obs (failed : bool) (reqs : list bytes) (nts : list (N * bytes))
   else SL [SN 0; SL (map SB (sort_by (fun p => p) reqs)); SL (map enc_kp (sort_by kp_path nts))].
 
 Definition h_model (c : hcase) : sx :=
-  let '(r1, A1) := h_step (hc_filter c) (hc_A c) (hc_S1 c) in
+  let '(r1, A1) := h_step c (hc_A c) (hc_S1 c) in
   let o1 := step_obs (ds_err r1) (ds_reqs r1) (map (fun n => (kind_code (notif_kind n), notif_path n)) (ds_notifs r1)) in
   if ds_err r1 then SL [o1]
   else
-    let '(r2, A2) := h_step (hc_filter c) A1 (hc_S2 c) in
+    let '(r2, A2) := h_step c A1 (hc_S2 c) in
     let o2 := step_obs (ds_err r2) (ds_reqs r2) (map (fun n => (kind_code (notif_kind n), notif_path n)) (ds_notifs r2)) in
     if ds_err r2 then SL [o1; o2]
     else
-      let '(r3, _) := h_step (hc_filter c) A2 (hc_S2 c) in
+      let '(r3, _) := h_step c A2 (hc_S2 c) in
       SL [o1; o2; step_obs (ds_err r3) (ds_reqs r3) (map (fun n => (kind_code (notif_kind n), notif_path n)) (ds_notifs r3))].
 
 (* a REQ id is the index of the STAT in the sender's stream = index in the source listing *)
@@ -422,7 +426,7 @@ Definition h_hyps (c : hcase) : bool :=
   let F := filter_entries (wf_of (hc_filter c)) in
   h_listing_ok (hc_A c) && h_listing_ok (hc_S1 c) && h_listing_ok (hc_S2 c)
   && links_meta_b (F (hc_S1 c)) && links_meta_b (F (hc_S2 c))
-  && identity_faithful_b DMetadata (hc_A c) (F (hc_S1 c)) && identity_faithful_b DMetadata (F (hc_S1 c)) (F (hc_S2 c))
+  && identity_faithful_b (hc_differ c) (hc_A c) (F (hc_S1 c)) && identity_faithful_b (hc_differ c) (F (hc_S1 c)) (F (hc_S2 c))
   && links_respect_reject (hc_filter c) (hc_S1 c) && links_respect_reject (hc_filter c) (hc_S2 c)
   && links_respect_reject (hc_filter c) (hc_A c).
 
@@ -435,15 +439,28 @@ Definition expected_rows (code : N) (A0 S : list entry) : list sx :=
     (sort_by (fun e : entry => st_path (fst e))
        (filter (keeps code) (filter_entries (wf_of code) S) ++ filter (fun e => negb (keeps code e)) A0)).
 Definition shows (code : N) (A0 S : list entry) (st : hstep) : bool := rows_eqb (expected_rows code A0 S) (hs_rows st).
+(* merge mode: nothing is deleted; every entry of the source the filter keeps is there *)
+Definition holds_all (code : N) (S : list entry) (st : hstep) : bool :=
+  forallb (fun row => existsb (sx_eqb row) (hs_rows st))
+          (map row_of_entry (filter (keeps code) (filter_entries (wf_of code) S))).
+Definition step_ok (c : hcase) (S : list entry) (st : hstep) : bool :=
+  negb (hs_failed st)
+  && match hc_mode c with
+     | Fresh => shows (hc_filter c) (hc_A c) S st     (* whatever the differ: removed names are removed *)
+     | Merge => holds_all (hc_filter c) S st
+     end.
 
 Definition c02_history_spec (c : hcase) : bool :=
   negb (h_hyps c)
   || match hc_steps c with
      | [s1; s2; s3] =>
-       negb (hs_failed s1) && shows (hc_filter c) (hc_A c) (hc_S1 c) s1
-       && negb (hs_failed s2) && shows (hc_filter c) (hc_A c) (hc_S2 c) s2
-       && negb (hs_failed s3) && shows (hc_filter c) (hc_A c) (hc_S2 c) s3
-       && match hs_reqs s3 with [] => true | _ => false end
-       && match hs_notifs s3 with [] => true | _ => false end
+       step_ok c (hc_S1 c) s1 && step_ok c (hc_S2 c) s2 && step_ok c (hc_S2 c) s3
+       (* with DiffMetadata (and no merge) the synchronisation of the unchanged source finds nothing
+          to do; with DiffNone everything is written again (model comparison: diff_none_requests_all) *)
+       && match hc_differ c, hc_mode c with
+          | DMetadata, Fresh =>
+            match hs_reqs s3 with [] => true | _ => false end && match hs_notifs s3 with [] => true | _ => false end
+          | _, _ => true
+          end
      | _ => false
      end.
